@@ -209,7 +209,7 @@ def preload_chain(chain, ctx):
     (generated nested instance invalid) loses its override"""
     out = []
     for op in chain:
-        name = "fromOtherClass" if op["op"] == "fromMapping" else op["op"]
+        name = op["op"]
         try:
             kw = {k: dump.load_value(v, ctx) for k, v in op.get("kw", [])}
         except Exception:
@@ -363,6 +363,10 @@ def correspondence(case, impl, model):
     if "ok" in impl:
         return f"model rejects ({mres['err']}), real code accepts: " + json.dumps(impl["ok"])[:300]
     if impl["err"] != mres["err"]:
+        if case["cls"].get("defaults") and impl["err"] in model.get("errs", []):
+            # several invalid fields: the real constructor applies the defaults before the arguments, the model goes
+            # field by field - which of the errors surfaces first is not part of any statement
+            return None
         return f"exception class differs: model {mres['err']}, real code {impl['err']}: {impl.get('msg')}"
     return None
 
